@@ -2942,6 +2942,11 @@ impl HnswBackend {
                 .collect();
         }
 
+        // The index cannot compile this filter (e.g. a NOT without operand): fall back to a scan.
+        // scan() takes doc_store.read() itself; taking it a second time while this thread still
+        // holds it deadlocks as soon as a writer has queued up in between, so release both guards.
+        drop(meta_index);
+        drop(store);
         self.scan(|meta| metadata_filter::matches(filter, meta))
     }
 
